@@ -88,8 +88,12 @@ SrcArgs(args, i) ==
 RECURSIVE SrcCases(_, _)
 SrcCases(cs, i) == IF i > Len(cs) THEN <<>>
                    ELSE <<"|">> \o cs[i].key \o <<"=">> \o Src(cs[i].val) \o SrcCases(cs, i + 1)
+RECURSIVE SrcJoin(_, _)
+SrcJoin(args, i) == IF i > Len(args) THEN <<>> ELSE (IF i > 1 THEN <<"|">> ELSE <<>>) \o Src(args[i]) \o SrcJoin(args, i + 1)
 SrcItem(it) ==
   CASE it.k = "t" -> it.s
+    [] it.k = "l" -> <<"[[">> \o SrcJoin(it.args, 1) \o <<"]]">>
+    [] it.k = "x" -> <<"[", "http://x.y", "SP">> \o Src(it.c) \o <<"]">>
     [] it.k = "p" -> <<"{{{">> \o it.name \o (IF it.hasDef THEN <<"|">> \o Src(it.def) ELSE <<>>) \o <<"}}}">>
     [] it.k = "c" -> <<"{{", it.name>> \o SrcArgs(it.args, 1) \o <<"}}">>
     [] it.k = "if" -> <<"{{", "#if:">> \o Src(it.c) \o <<"|">> \o Src(it.y) \o <<"|">> \o Src(it.n) \o <<"}}">>
@@ -106,7 +110,7 @@ ErrTimeout(fn) == <<"<ERR:timeout:", fn, ">">>
 
 (* ---------------- the evaluator ---------------------------------------- *)
 \* X = [lib, need, o, Dev, enwikt]  (fixed during one expand() call)
-RECURSIVE Exp(_, _, _, _, _), ExpItem(_, _, _, _, _), ExpArgsUnexp(_, _, _, _, _, _),
+RECURSIVE Exp(_, _, _, _, _), ExpItem(_, _, _, _, _), ExpArgsUnexp(_, _, _, _, _, _), ExpJoin(_, _, _, _, _, _),
           BindArgs(_, _, _, _, _, _, _), ExpSwitch(_, _, _, _, _, _)
 
 \* expand_recurse(coded, parent, expand_all): c content, f frame, ea expand_all
@@ -163,8 +167,22 @@ PfnWrap(fname, f, st, X, Body(_)) ==
            b == Body(s2)
        IN [r |-> "ok", out |-> AddNL(b.out), st |-> Pop(Pop(b.st))]
 
+\* the |-separated parts of a link, each expanded with expand_recurse(x, parent, expand_all)
+ExpJoin(args, i, f, ea, st, X) ==
+  IF i > Len(args) THEN R(<<>>, st)
+  ELSE LET r1 == Exp(args[i], f, ea, st, X)
+           r2 == ExpJoin(args, i + 1, f, ea, r1.st, X)
+       IN R((IF i > 1 THEN <<"|">> ELSE <<>>) \o r1.out \o r2.out, r2.st)
+
 ExpItem(it, f, ea, st, X) ==
   CASE it.k = "t" -> R(it.s, st)
+    (* ---- [[a|b]] and [http://x.y c]: path label pushed around the expansion of the parts -- *)
+    [] it.k = "l" ->
+         LET r == ExpJoin(it.args, 1, f, ea, Push(st, Lbl("[[link]]")), X)
+         IN R(<<"[[">> \o r.out \o <<"]]">>, Pop(r.st))
+    [] it.k = "x" ->
+         LET r == Exp(it.c, f, ea, Push(st, Lbl("[extlink]")), X)
+         IN R(<<"[", "http://x.y", "SP">> \o r.out \o <<"]">>, Pop(r.st))
     (* ---- {{{name|default}}} --------------------------------------------- *)
     [] it.k = "p" ->
          LET key == Trim(it.name)
